@@ -110,3 +110,46 @@ def make(mode):
 
 for _m in ('left-only', 'right-only', 'both'):
     make(_m)
+
+
+# ------------------------------------------------------------------------------------------------ key argument resolution
+@vc('C06.keys_from_args', functions=[J + 'keys_from_args'], props=['C06', 'C07'],
+    assumptions=['natural_key through a recording summary (its filter over the two headers is decided by the bounded check)'])
+def keys_from_args(h):
+    """key= gives both sides the same key; lkey= and rkey= together give each side its own; nothing at all asks for the natural key
+    (ONE computation, used for both sides); every other combination is an ArgumentError -- never a silent guess."""
+    import itertools as _it
+    for kg, lg, rg in _it.product((False, True), repeat=3):
+        def body(ctx, kg=kg, lg=lg, rg=rg):
+            it = h.interp(ctx)
+            calls = []
+            nat = sym_cell('natural')
+            it.summaries[J + 'natural_key'] = lambda interp, args, kw, node: (calls.append(list(args)), nat)[1]
+            L, R = Opaque('table', 'left'), Opaque('table', 'right')
+            vals = {}
+            for nm, given in (('key', kg), ('lkey', lg), ('rkey', rg)):
+                if given:
+                    c = sym_cell(nm)
+                    ctx.assume(smt.cls(c.t) != smt.NONE)
+                    vals[nm] = c
+                else:
+                    vals[nm] = None
+            try:
+                r = it.call(closure_of(it, J + 'keys_from_args'), [L, R, vals['key'], vals['lkey'], vals['rkey']], {})
+            except PyExc as e:
+                legal = (not kg and not lg and not rg) or (kg and not lg and not rg) or (not kg and lg and rg)
+                ctx.oblige('keys_from_args: ArgumentError exactly for the ambiguous / incomplete combinations', z3.BoolVal(e.kind == 'ArgumentError' and not legal))
+                return
+            if not kg and not lg and not rg:
+                ok = isinstance(r, tuple) and r[0] is nat and r[1] is nat and calls == [[L, R]]
+                what = 'no key arguments: the natural key of (left, right), computed once, for both sides'
+            elif kg and not lg and not rg:
+                ok = isinstance(r, tuple) and r[0] is vals['key'] and r[1] is vals['key'] and not calls
+                what = 'key=: that key for both sides'
+            elif not kg and lg and rg:
+                ok = isinstance(r, tuple) and r[0] is vals['lkey'] and r[1] is vals['rkey'] and not calls
+                what = 'lkey= and rkey=: each side its own key, not swapped'
+            else:
+                ok, what = False, 'an ambiguous combination must raise'
+            ctx.oblige('keys_from_args: ' + what, z3.BoolVal(bool(ok)))
+        h.explore(body)
